@@ -385,7 +385,7 @@ PROPS["C01"] = dict(
 )
 
 PROPS["C02"] = dict(
-    harness="c02_order", flavour="rel", env={"VERIF_MAX_SHRINK_EVALS": "24"},
+    harness="c02_order", flavour="rel", max_inconclusive_fraction=0.08, env={"VERIF_MAX_SHRINK_EVALS": "24"},
     quick=dict(workers=16, cases=160, min_nontrivial=40),
     thorough=dict(workers=16, cases=1200, min_nontrivial=300, budget_s=3300),
     rule="Triples (CartesianR2/CartesianR6/PolarR6 x Circular/Shafranov/Czarny x 7 profiles, shipped shape parameters and "
